@@ -140,14 +140,22 @@ def utf8Enc (wc : Nat) : Bytes :=
   else if wc < 0x4000000 then [0xf8 + wc / 16777216, 0x80 + wc / 262144 % 64, 0x80 + wc / 4096 % 64, 0x80 + wc / 64 % 64, 0x80 + wc % 64]
   else [0xfc + wc / 1073741824 % 2, 0x80 + wc / 16777216 % 64, 0x80 + wc / 262144 % 64, 0x80 + wc / 4096 % 64, 0x80 + wc / 64 % 64, 0x80 + wc % 64]
 
-/-- BMPString__dump: pairs of octets, a trailing odd octet is ignored; NO escaping -/
-def encBmp : Bytes → Bytes
-  | a :: b :: r => utf8Enc (a * 256 + b) ++ encBmp r
+/-- BMPString__dump: the UTF-8 text of the pairs of octets, a trailing odd octet is ignored -/
+def bmpUtf8 : Bytes → Bytes
+  | a :: b :: r => utf8Enc (a * 256 + b) ++ bmpUtf8 r
   | _ => []
 
-def encUni : Bytes → Bytes
-  | a :: b :: c :: d :: r => utf8Enc (((a * 256 + b) * 256 + c) * 256 + d) ++ encUni r
+/-- UniversalString__dump -/
+def uniUtf8 : Bytes → Bytes
+  | a :: b :: c :: d :: r => utf8Enc (((a * 256 + b) * 256 + c) * 256 + d) ++ uniUtf8 r
   | _ => []
+
+/-- BMPString_encode_xer (finding F150 repaired): the UTF-8 text goes through the escaping of
+    OCTET_STRING_encode_xer_utf8 (`BMPString__xer_escape`) -/
+def encBmp (bs : Bytes) : Bytes := encUtf8 (bmpUtf8 bs)
+
+/-- UniversalString_encode_xer -/
+def encUni (bs : Bytes) : Bytes := encUtf8 (uniUtf8 bs)
 
 def joinDot : List Nat → Bytes
   | [] => []
@@ -390,7 +398,13 @@ def decGeneral {σ : Type} (cb : GenCb σ) (need : Bytes) : Nat → Bool → σ 
       else decGeneral cb need f ph s rest
     | some (.tag, chunk, rest) =>
       match checkTag chunk need with
-      | .both => if ph then none else (cb.body s []).map fun s' => (s', rest)      -- XER_GOT_EMPTY
+      | .both =>
+        if ph then
+          -- a value tag named like the element itself, `<true><true/></true>`: `goto unknown_bo` (finding F153 repaired)
+          match cb.unexp s chunk with
+          | some s' => decGeneral cb need f true s' rest
+          | none => none
+        else (cb.body s []).map fun s' => (s', rest)      -- XER_GOT_EMPTY
       | .opening => if ph then none else decGeneral cb need f true s rest
       | .closing => if ph then some (s, rest) else none
       | .unkBo =>
@@ -437,7 +451,8 @@ def decPrim (pbd : Bytes → Pbd) (need bs : Bytes) : Option (Val × Bytes) :=
     | _ => none
   | none => none
 
-/-- BOOLEAN__xer_body_decode -/
+/-- BOOLEAN__xer_body_decode; an empty chunk (white space next to the `<true/>`) is XPBD_NOT_BODY_IGNORE
+    (finding F59 repaired) -/
 def boolBody (chunk : Bytes) : Pbd :=
   match chunk with
   | c :: _ =>
@@ -447,7 +462,7 @@ def boolBody (chunk : Bytes) : Pbd :=
       | .unkBo => if checkTag chunk litTrue = .both then .consumed (.bool true) else .broken
       | _ => .broken
     else .broken
-  | [] => .broken
+  | [] => .ignore
 
 /-- NULL__xer_body_decode -/
 def nullBody (chunk : Bytes) : Pbd := if chunk = [] then .consumed .null else .broken
@@ -653,36 +668,39 @@ def strtoent (base : Nat) : Nat → Nat → Bytes → Option (Option Nat × Nat)
         let v := val * base + d
         if v > 0x10ffff then none else strtoent base v (n + 1) r
 
-/-- OCTET_STRING__convert_entrefs with `have_more` = 1 (an incomplete reference is copied verbatim) -/
-def convEnt : Nat → Bytes → Bytes
-  | 0, _ => []
-  | _, [] => []
+/-- OCTET_STRING__convert_entrefs with `have_more` = 1 (an incomplete reference is copied verbatim);
+    `none` = -1: a numeric character reference without digits or of value 0 (`&#;` `&#x;` `&#0;`) does not denote
+    a character (finding F152 repaired: it was `assert(val > 0)`) -/
+def convEnt : Nat → Bytes → Option Bytes
+  | 0, _ => some []
+  | _, [] => some []
   | f + 1, c :: r =>
-    if c ≠ 0x26 then c :: convEnt f r
+    if c ≠ 0x26 then (convEnt f r).map (c :: ·)
     else
       match r with
-      | [] => [c]                                       -- "&" at the end: verbatim
+      | [] => some [c]                                  -- "&" at the end: verbatim
       | 0x23 :: r2 =>
         match r2 with
-        | [] => c :: convEnt f r                        -- "&#" at the end
+        | [] => (convEnt f r).map (c :: ·)              -- "&#" at the end
         | x :: r3 =>
           let (base, digits) := if x = 0x78 then (16, r3) else (10, r2)
           match strtoent base 0 0 digits with
-          | none => c :: convEnt f r                    -- invalid character set: copy verbatim
+          | none => (convEnt f r).map (c :: ·)          -- invalid character set: copy verbatim
           | some (some val, len) =>
             -- `!len || pval[len-1] != ';'` cannot hold here
-            utf8Enc val ++ convEnt f (digits.drop len)
-          | some (none, _) => c :: convEnt f r          -- no ';' before the end of the chunk
+            if val = 0 then none
+            else (convEnt f (digits.drop len)).map (utf8Enc val ++ ·)
+          | some (none, _) => (convEnt f r).map (c :: ·) -- no ';' before the end of the chunk
       | _ =>
         -- memchr(p, ';', min(len, 5))
         let win := (c :: r).take 5
         match win.findIdx? (· == 0x3b) with
-        | none => c :: convEnt f r
+        | none => (convEnt f r).map (c :: ·)
         | some k =>
-          if k = 4 ∧ win.take 4 = [0x26, 0x61, 0x6d, 0x70] then 0x26 :: convEnt f ((c :: r).drop 5)
-          else if k = 3 ∧ win.take 3 = [0x26, 0x6c, 0x74] then 0x3c :: convEnt f ((c :: r).drop 4)
-          else if k = 3 ∧ win.take 3 = [0x26, 0x67, 0x74] then 0x3e :: convEnt f ((c :: r).drop 4)
-          else c :: convEnt f r
+          if k = 4 ∧ win.take 4 = [0x26, 0x61, 0x6d, 0x70] then (convEnt f ((c :: r).drop 5)).map (0x26 :: ·)
+          else if k = 3 ∧ win.take 3 = [0x26, 0x6c, 0x74] then (convEnt f ((c :: r).drop 4)).map (0x3c :: ·)
+          else if k = 3 ∧ win.take 3 = [0x26, 0x67, 0x74] then (convEnt f ((c :: r).drop 4)).map (0x3e :: ·)
+          else (convEnt f r).map (c :: ·)
 
 /-- OS__check_escaped_control_char: the whole tag must be `<name/>` of the table -/
 def ctlOfTag (chunk : Bytes) : Option Nat :=
@@ -693,7 +711,7 @@ def ctlOfTag (chunk : Bytes) : Option Nat :=
 
 def utf8Cb : GenCb Bytes where
   unexp := fun s chunk => (ctlOfTag chunk).map fun c => s ++ [c]
-  body := fun s chunk => some (s ++ convEnt (chunk.length + 1) chunk)
+  body := fun s chunk => (convEnt (chunk.length + 1) chunk).map fun b => s ++ b
 
 /-- UTF8String__process: the code points; `none` = any of the U8E_* errors -/
 def utf8Points : Nat → Bytes → Option (List Nat)
